@@ -63,10 +63,18 @@ class PScal(BaseModel):
     s: Optional[str]
 
 
-class PColl(BaseModel):
+class PScal2(BaseModel):
+    b: Optional[bool]
+    f: Optional[float]
+
+
+class PLst(BaseModel):
     l: List[int]  # noqa: E741
-    st: Set[int]
     ol: Optional[List[int]]
+
+
+class PSets(BaseModel):
+    st: Set[int]
     os: Optional[Set[int]]
 
 
@@ -133,14 +141,30 @@ class SScal(MetadataSchema):
     s: Optional[str]
 
 
-class SColl(MetadataSchema):
+class SScal2(MetadataSchema):
     class Plugin:
-        name = "vt.c14coll"
+        name = "vt.c14scal2"
+        version = (0, 1, 0)
+
+    b: Optional[bool]
+    f: Optional[float]
+
+
+class SLst(MetadataSchema):
+    class Plugin:
+        name = "vt.c14lst"
         version = (0, 1, 0)
 
     l: List[int]  # noqa: E741
-    st: Set[int]
     ol: Optional[List[int]]
+
+
+class SSets(MetadataSchema):
+    class Plugin:
+        name = "vt.c14sets"
+        version = (0, 1, 0)
+
+    st: Set[int]
     os: Optional[Set[int]]
 
 
@@ -183,16 +207,25 @@ class SSib(MetadataSchema):
     m: Optional[SM]
 
 
-FACTORIES = ("plain", "schema")
+FACTORIES = ("plain", "schema", "installed")
+SCHEMA_LIKE = ("schema", "installed")  # MetadataSchema based: YAML parsing, harvesters, no empty strings
 
 _PY = {
-    "plain": dict(M=PM, M2=PM2, M3=PM3, Prim=PPrim, Scal=PScal, Coll=PColl, Nest=PNest, Rec=PRec, Chain=PChain, MX=PMX, Sib=PSib),
-    "schema": dict(M=SM, M2=SM2, M3=SM3, Prim=SPrim, Scal=SScal, Coll=SColl, Nest=SNest, Rec=SRec, Chain=SChain, MX=SMX, Sib=SSib),
+    "plain": dict(M=PM, M2=PM2, M3=PM3, Prim=PPrim, Scal=PScal, Scal2=PScal2, Lst=PLst, Sets=PSets, Nest=PNest, Rec=PRec, Chain=PChain, MX=PMX, Sib=PSib),
+    "schema": dict(M=SM, M2=SM2, M3=SM3, Prim=SPrim, Scal=SScal, Scal2=SScal2, Lst=SLst, Sets=SSets, Nest=SNest, Rec=SRec, Chain=SChain, MX=SMX, Sib=SSib),
 }
 
-TOP_CLASSES = ("Prim", "Scal", "Coll", "Nest", "Rec", "Chain")
+TOP_CLASSES = ("Prim", "Scal", "Scal2", "Lst", "Sets", "Nest", "Rec", "Chain")
 # classes whose nested position holds *unrelated* sibling classes: associativity is not claimed
 EXTRA_CLASSES = ("Sib",)
+# views (field subsets) of schemas that are installed with metador-core itself
+INSTALLED_CLASSES = ("FileOpt", "FileReq", "Image")
+_INSTALLED_PLUGIN = {"FileOpt": "core.file", "FileReq": "core.file", "Image": "core.imagefile"}
+
+
+def class_ids(factory):
+    return INSTALLED_CLASSES if factory == "installed" else TOP_CLASSES + EXTRA_CLASSES
+
 
 # class id -> [(field, kind text, required in the complete model, declared nested class id or None)]
 DESCR = {
@@ -204,16 +237,34 @@ DESCR = {
         ("f", "Optional[float]", False, None),
     ],
     "Scal": [("i", "Optional[int]", False, None), ("s", "Optional[str]", False, None)],
-    "Coll": [
-        ("l", "List[int]", True, None),
-        ("st", "Set[int]", True, None),
-        ("ol", "Optional[List[int]]", False, None),
-        ("os", "Optional[Set[int]]", False, None),
-    ],
+    "Scal2": [("b", "Optional[bool]", False, None), ("f", "Optional[float]", False, None)],
+    "Lst": [("l", "List[int]", True, None), ("ol", "Optional[List[int]]", False, None)],
+    "Sets": [("st", "Set[int]", True, None), ("os", "Optional[Set[int]]", False, None)],
     "Nest": [("m", "M", True, "M"), ("om", "Optional[M]", False, "M"), ("lm", "List[M]", True, "M")],
     "Rec": [("v", "Optional[int]", False, None), ("r", "Optional[Rec]", False, "Rec")],
     "Chain": [("m", "Optional[M]", False, "M"), ("lm", "Optional[List[M]]", False, "M")],
     "Sib": [("m", "Optional[M]", False, "M")],
+    # installed schemas (core.file 0.1.0, core.imagefile 0.1.0); only the listed fields are used
+    "FileOpt": [
+        ("contentSize", "int", True, None),
+        ("alternateName", "Optional[List[str]]", False, None),
+        ("keywords", "Optional[Set[str]]", False, None),
+        ("copyrightYear", "Optional[int]", False, None),
+        ("filename", "str", True, None),  # (never provided in this view: no complete instances)
+    ],
+    "FileReq": [
+        ("filename", "str", True, None),
+        ("contentSize", "int", True, None),
+        ("sha256", "str", True, None),
+        ("encodingFormat", "str", True, None),
+    ],
+    "Image": [
+        ("width", "Pixels", True, "Pixels"),
+        ("height", "Pixels", True, "Pixels"),
+        ("contentSize", "int", True, None),
+        ("filename", "str", True, None),  # (never provided in this view)
+    ],
+    "Pixels": [("value", "Number", True, None), ("unitText", "Optional[str]", False, None)],
 }
 DESCR["M2"] = DESCR["M"] + [("b", "Optional[int]", False, None)]
 DESCR["M3"] = DESCR["M2"] + [("d", "Optional[int]", False, None)]
@@ -237,6 +288,14 @@ def related(c1, c2):
 
 
 def py_class(factory, cid):
+    if factory == "installed":
+        if cid == "Pixels":
+            from metador_core.schema.common import Pixels
+
+            return Pixels
+        from metador_core.plugins import schemas
+
+        return schemas.get(_INSTALLED_PLUGIN[cid], (0, 1, 0))
     return _PY[factory][cid]
 
 
@@ -293,22 +352,29 @@ def corpora(factory, cid, seed):
     i1, i2, s1, s2, f1 = A["i1"], A["i2"], A["s1"], A["s2"], A["f1"]
     ints = [MISSING, 0, i1, i2]
     strs = [MISSING, "", s1, s2] if factory == "plain" else [MISSING, s1, s2]  # schemas forbid ""
+    if s1 == "x y" and factory == "installed":
+        s1, s2 = "x-y", "ü"  # (file names / keywords: keep them free of blanks)
     if cid == "Prim":
         return [("i", ints), ("b", [MISSING, False, True]), ("s", strs), ("f", [MISSING, 0.0, f1])]
     if cid == "Scal":
         return [("i", ints + [-1]), ("s", strs + [s1 + s2])]
-    if cid == "Coll":
+    if cid == "Scal2":
+        return [("b", [MISSING, False, True]), ("f", [MISSING, 0.0, f1, -f1, 2 * f1])]
+    if cid == "Lst":
         return [
-            ("l", [MISSING, _L(), _L(i1), _L(i1, i2)]),
+            ("l", [MISSING, _L(), _L(i1), _L(i2, i1), _L(0)]),
+            ("ol", [MISSING, _L(), _L(0), _L(i1, i1)]),
+        ]
+    if cid == "Sets":
+        return [
             ("st", [MISSING, _S(), _S(i1), _S(i1, i2), _S(0)]),
-            ("ol", [MISSING, _L(), _L(0)]),
-            ("os", [MISSING, _S(), _S(i2)]),
+            ("os", [MISSING, _S(), _S(i2), _S(0, i1)]),
         ]
     if cid == "Nest":
         return [
-            ("m", [MISSING, _M(), _M(a=0), _M(a=i1), _M(k=_L()), _M(k=_L(i1)), _M(a=0, k=_L(0))]),
-            ("om", [MISSING, _M(), _M(a=0), _M(k=_L(i2))]),
-            ("lm", [MISSING, _LM(), _LM(_M()), _LM(_M(a=0)), _LM(_M(a=i1), _M())]),
+            ("m", [MISSING, _M(a=0), _M(a=i1), _M(), _M(k=_L()), _M(k=_L(i1)), _M(a=0, k=_L(0))]),
+            ("om", [MISSING, _M(k=_L(i2)), _M(), _M(a=0)]),
+            ("lm", [MISSING, _LM(_M(a=0)), _LM(), _LM(_M()), _LM(_M(a=i1), _M())]),
         ]
     if cid == "Rec":
         R = lambda **f: _M("Rec", **f)  # noqa: E731
@@ -351,6 +417,27 @@ def corpora(factory, cid, seed):
                 ],
             ),
             ("lm", [MISSING, _LM(_M("M2", b=0)), _LM(_M("M", a=i1), _M("M3"))]),
+        ]
+    if cid == "FileOpt":
+        return [
+            ("contentSize", [MISSING, 0, i1, i2]),
+            ("alternateName", [MISSING, _L(), _L(s1), _L(s2, s1)]),
+            ("keywords", [MISSING, _S(), _S(s1), _S(s1, s2)]),
+            ("copyrightYear", [MISSING, 0, 2000 + i1 % 10]),
+        ]
+    if cid == "FileReq":
+        return [
+            ("filename", [MISSING, s1 + ".txt", s2 + ".txt"]),
+            ("contentSize", [MISSING, 0, i1]),
+            ("sha256", [MISSING, "ab12", "cd34"]),
+            ("encodingFormat", [MISSING, "text/plain", "image/png"]),
+        ]
+    if cid == "Image":
+        px = lambda v: _M("Pixels", value=v, unitText="px")  # noqa: E731
+        return [
+            ("width", [MISSING, px(0), px(100 + i1), px(i2)]),
+            ("height", [MISSING, px(50), px(0)]),
+            ("contentSize", [MISSING, 0]),
         ]
     if cid == "Sib":
         return [
@@ -544,13 +631,13 @@ MODES = {
     "kw": (False, False, FACTORIES),
     "parse_obj": (False, True, FACTORIES),
     "parse_json": (False, True, FACTORIES),
-    "parse_yaml": (False, True, ("schema",)),
+    "parse_yaml": (False, True, SCHEMA_LIKE),
     "to_partial_dict": (False, True, FACTORIES),
     "to_partial_dict_ii": (False, True, FACTORIES),
     "to_partial": (True, False, FACTORIES),
     "cast": (True, False, FACTORIES),
     "complete": (True, False, FACTORIES),
-    "harvester": (False, True, ("schema",)),
+    "harvester": (False, True, SCHEMA_LIKE),
 }
 
 
@@ -572,22 +659,22 @@ def applicable(mode, factory, cid, spec):
 _HARVESTERS = {}
 
 
-def harvester_class(cid):
+def harvester_class(factory, cid):
     """A Harvester for the schema class, written the way plugin authors write them."""
-    if cid in _HARVESTERS:
-        return _HARVESTERS[cid]
+    if (factory, cid) in _HARVESTERS:
+        return _HARVESTERS[factory, cid]
     from metador_core.harvester import Harvester
     from metador_core.plugin.util import register_in_group
     from metador_core.plugins import harvesters, schemas
 
-    scls = py_class("schema", cid)
+    scls = py_class(factory, cid)
     pname = scls.Plugin.name
     if pname not in schemas:
         register_in_group(schemas, scls, violently=True)
 
     class H(Harvester):
         class Plugin:
-            name = pname + ".hv"
+            name = f"vt.c14hv.{factory}.{cid.lower()}"
             version = (0, 1, 0)
             returns = schemas.PluginRef(name=pname, version=(0, 1, 0))
 
@@ -604,7 +691,7 @@ def harvester_class(cid):
 
     H.__name__ = H.__qualname__ = f"C14{cid}Harvester"
     register_in_group(harvesters, H, violently=True)
-    _HARVESTERS[cid] = H
+    _HARVESTERS[factory, cid] = H
     return H
 
 
@@ -626,7 +713,7 @@ def _hygiene():
         import metador_core.schema.partial as mp
         from metador_core.plugin.metaclass import UndefVersion
 
-        ours = set(_PY["schema"].values())
+        ours = set(_PY["schema"].values()) | {py_class("installed", c) for c in INSTALLED_CLASSES}
         for d in mp._partials.values():
             for k in [k for k in d if UndefVersion._is_marked(k) and UndefVersion._unwrap(k) in ours]:
                 del d[k]
@@ -645,9 +732,9 @@ def _hygiene():
         pass
 
 
-def make_harvester(cid, spec):
+def make_harvester(factory, cid, spec):
     _hygiene()
-    h = harvester_class(cid)()
+    h = harvester_class(factory, cid)()
     h._c14_spec = spec
     return h
 
@@ -674,7 +761,7 @@ def build(factory, cid, mode, spec):
     if mode == "complete":
         return complete_object(factory, cid, spec)  # handed to merge()/merge_with() as it is
     if mode == "harvester":
-        return make_harvester(cid, spec).harvest()
+        return make_harvester(factory, cid, spec).harvest()
     raise KeyError(mode)
 
 
@@ -688,9 +775,12 @@ def observe(obj):
     return _strip(obj.dict())
 
 
+_CONSTANTS = ("@context", "@type")  # JSON-LD constant fields: dumped always, ignored on input
+
+
 def _strip(v):
     if isinstance(v, dict):
-        return {k: _strip(x) for k, x in v.items() if x is not None}
+        return {k: _strip(x) for k, x in v.items() if x is not None and k not in _CONSTANTS}
     if isinstance(v, (list, tuple)):
         return [_strip(x) for x in v]
     if isinstance(v, (set, frozenset)):
